@@ -4,10 +4,10 @@
 cd "$(dirname "$0")/.."
 props="$*"
 for d in seeded/*/; do
-  if grep -q "\"superseded\"" "$d/meta.json" 2>/dev/null; then continue; fi
+  if grep -q '"superseded"' "$d/meta.json" 2>/dev/null; then continue; fi
   n=$(basename "$d"); p=${n%%-*}
   if [ -n "$props" ]; then case " $props " in *" $p "*) ;; *) continue;; esac; fi
-  if grep -q "\"detected_thorough\"" "$d/meta.json" 2>/dev/null; then
+  if grep -q '"detected_thorough"' "$d/meta.json" 2>/dev/null; then
     # reported by the thorough tier only: run it there when SEEDED_THOROUGH=1, otherwise say so
     if [ "$SEEDED_THOROUGH" = 1 ]; then tools/seeded.sh "$d" "$p" thorough 2>&1 | grep '^SEEDED'
     else echo "SEEDED $p $n: thorough tier only (set SEEDED_THOROUGH=1 to run it)"; fi
